@@ -488,6 +488,8 @@ def run(ck, facts):
     c08.run(sub3, facts)
     # size / align / offset handed to the option readers and writers at the positions the runtime declares them (C08.R8)
     c08.run(C.SubCheck(ck, "R5", "", ["R8"], key_re=r"[Oo]ption"), facts)
+    # an Option<primitive> is never classified as its payload (C08.R9): a one-field struct holding one keeps its {payload, is_ok} record and its receive buffer
+    c08.run(C.SubCheck(ck, "R5", "", ["R9"], key_re=r"classifies|classification"), facts)
 
 
 def _walk_val(v):
